@@ -177,11 +177,38 @@ def strip_comments(text):
     return "".join(out)
 
 
-def hygiene():
-    """Forbidden constructs anywhere in the development (comments and string
-    literals excluded); also a Variable/Hypothesis outside a Section."""
+def cone(vo_targets):
+    """transitive .v dependency cone of the given .vo targets (paths relative
+    to coq/), read from the dependency file coq_makefile maintains"""
+    dep = os.path.join(COQ, ".Makefile.d")
+    graph = {}
+    if os.path.exists(dep):
+        for line in open(dep).read().replace("\\\n", " ").splitlines():
+            if ":" not in line:
+                continue
+            lhs, rhs = line.split(":", 1)
+            tg = [x for x in lhs.split() if x.endswith(".vo")]
+            ds = [x for x in rhs.split() if x.endswith(".vo")]
+            for t in tg:
+                graph[os.path.normpath(t)] = [os.path.normpath(d) for d in ds]
+    seen, todo = set(), [os.path.normpath(t) for t in vo_targets]
+    while todo:
+        t = todo.pop()
+        if t in seen:
+            continue
+        seen.add(t)
+        todo += graph.get(t, [])
+    return sorted(os.path.join(COQ, t[:-1]) for t in seen if os.path.exists(os.path.join(COQ, t[:-1])))
+
+
+def hygiene(files=None):
+    """Forbidden constructs in the given .v files (default: the whole
+    development); comments and string literals excluded; also a
+    Variable/Hypothesis outside a Section."""
     bad = []
-    for f in sorted(glob.glob(os.path.join(COQ, "**", "*.v"), recursive=True)):
+    if files is None:
+        files = sorted(glob.glob(os.path.join(COQ, "**", "*.v"), recursive=True))
+    for f in files:
         if "/cases/" in f:
             continue
         txt = strip_comments(open(f).read())
@@ -204,13 +231,16 @@ def hygiene():
     return bad
 
 
-def regenerate():
-    """Run every translator in tools/py2v; each writes coq/gen/<X>.v only when
-    the content changes.  Returns dict name -> error string or None."""
+def regenerate(which=None):
+    """Run the translators tools/py2v/gen_<name>.py (all, or those named in
+    `which`); each writes coq/gen/<X>.v only when the content changes.
+    Returns dict name -> error string or None."""
     res = {}
     gdir = os.path.join(VERIF, "tools", "py2v")
     for f in sorted(glob.glob(os.path.join(gdir, "gen_*.py"))):
         name = os.path.basename(f)[4:-3]
+        if which is not None and name not in which:
+            continue
         env = dict(os.environ, VERIF_REPO=REPO)
         r = subprocess.run([PY, f], capture_output=True, text=True, env=env, timeout=120)
         res[name] = None if r.returncode == 0 else (r.stdout + r.stderr)[-3000:]
@@ -411,13 +441,13 @@ def known(ctx, text):
     ctx.known_lines.append(text)
 
 
-def standard_proof_part(ctx, props_rel, allowed_axioms=(), extra_targets=()):
+def standard_proof_part(ctx, props_rel, allowed_axioms=(), extra_targets=(), translators=()):
     """Regenerate tables, build the property's theorem file and its cone, run
     hygiene, capture Print Assumptions.  Records obligations in ctx.  Returns
     True when everything is discharged; on failure records what broke in
     ctx.broken (list of strings) — the caller then searches for an input."""
     broken = []
-    gen = regenerate()
+    gen = regenerate(list(translators))
     for k, e in gen.items():
         ctx.obligations.append((f"translator:{k}", e is None, "" if e is None else e[-400:]))
         if e is not None:
@@ -428,7 +458,8 @@ def standard_proof_part(ctx, props_rel, allowed_axioms=(), extra_targets=()):
         errs = re.findall(r"File \"([^\"]+)\", line (\d+).*?\n(Error:.*?)(?=\nmake|\nFile|\Z)", log, re.S)
         msg = "; ".join(f"{os.path.basename(f)}:{l}: {' '.join(e.split())[:300]}" for f, l, e in errs[:5]) or log[-1500:]
         broken.append("coq build failed: " + msg)
-    bad = hygiene()
+    # quick: the dependency cone of this property; thorough: the whole development
+    bad = hygiene(cone([vo] + list(extra_targets)) if ctx.quick else None)
     ctx.obligations.append(("hygiene: no Admitted/admit/Axiom/Parameter/Conjecture/disabled checks/section-less Variable",
                             not bad, "; ".join(bad[:5])))
     if bad:
